@@ -77,7 +77,7 @@ theorem cmpBytes_trans (xs ys zs : Bytes) :
 
 /-! ### the fragment `F` and a uniform view of its values -/
 
-/-- Well-formed (ranges of the fixed-width kinds, attributes first) and free of `Float64`/`Data`. -/
+/-- Well-formed (ranges of the fixed-width kinds, attributes first) and free of `Float64`. -/
 def goodV (a : Val) : Prop := a.wf = true ∧ a.inF = true
 def goodE (e : Elems) : Prop := Elems.wf e = true ∧ Elems.inF e = true
 
@@ -87,6 +87,7 @@ inductive View where
   | num (n : Int)
   | bool (b : Bool)
   | extant
+  | dat (b : Bytes)
   | other
 
 def view : Val → View
@@ -101,17 +102,19 @@ def view : Val → View
   | .text s => .text s
   | .record es => .recd es
   | .f64 _ => .other
-  | .data _ => .other
+  | .data b => .dat b
 
 def vrank : View → Nat
-  | .other => 0
+  | .dat _ => 0
   | .recd _ => 1
   | .text _ => 2
   | .num _ => 3
   | .bool _ => 4
   | .extant => 5
+  | .other => 6
 
-/-- On `F`, `compare` is: first by kind class (`Record < Text < number < Boolean < Extant`), then within the class. -/
+/-- On `F`, `compare` is: first by kind class (`Data < Record < Text < number < Boolean < Extant`), then within
+the class. -/
 def viewCmp (x y : View) : Ordering :=
   match x, y with
   | .recd e1, .recd e2 => Elems.cmp e1 e2
@@ -119,6 +122,7 @@ def viewCmp (x y : View) : Ordering :=
   | .num n, .num m => cmpInt n m
   | .bool p, .bool q => cmpBool p q
   | .extant, .extant => .eq
+  | .dat x, .dat y => cmpBytes x y
   | .other, .other => .eq
   | _, _ => if vrank x < vrank y then .lt else .gt
 
@@ -136,6 +140,7 @@ def viewEq (x y : View) : Bool :=
   | .num n, .num m => n == m
   | .bool p, .bool q => p == q
   | .extant, .extant => true
+  | .dat x, .dat y => x == y
   | .other, .other => true
   | _, _ => false
 
@@ -152,6 +157,7 @@ def viewKey : View → List Int
   | .num n => intKey n
   | .bool p => [3, if p then 1 else 0]
   | .extant => [0]
+  | .dat b => 7 :: (b.length : Int) :: bytesKey b
   | .other => []
 
 theorem view_key (a : Val) (ha : goodV a) : a.hashKey = viewKey (view a) := by
@@ -194,6 +200,7 @@ theorem viewCmp_swap (x y : View)
   · exact cmpBytes_swap _ _
   · exact cmpInt_swap _ _
   · exact cmpBool_swap _ _
+  · exact cmpBytes_swap _ _
 
 theorem swapV_of (a : Val) (h : ∀ es, a = .record es → SwapE es) : SwapV a := by
   intro ha b hb
@@ -400,7 +407,7 @@ theorem viewEq_key (x y : View)
   · intro h
     have := hrec _ _ rfl rfl h
     simp [this.1, this.2.1, this.2.2.1, this.2.2.2]
-  all_goals (intro h; subst h; rfl)
+  all_goals (intro h; subst h; first | rfl | exact ⟨rfl, rfl⟩)
 
 theorem hashV_of (a : Val) (h : ∀ es, a = .record es → HashE es) : HashV a := by
   intro ha b hb
@@ -540,5 +547,279 @@ theorem before_asymm (vs : List Val) (h : ∀ v ∈ vs, goodV v) (i j : Nat) :
   unfold Before
   rw [swapV_all _ (goodV_getD vs h i) _ (goodV_getD vs h j)]
   cases Val.cmp (vs.getD i .extant) (vs.getD j .extant) <;> simp [Ordering.swap] <;> omega
+
+/-! ### floats: `==` is reflexive off NaN, and `==` floats are both zero or the same bits -/
+
+theorem cmpFin_self (m e : Int) : cmpFin m e m e = .eq := by simp [cmpFin, cmpInt]
+
+theorem feq_self (x : Fl) (h : x.isNan = false) : x.feq x = true := by
+  cases x <;> simp_all [Fl.feq, Fl.partialCmp, Fl.isNan, cmpFin_self]
+
+theorem cmpFin_eq_cases (m1 e1 m2 e2 : Int) (h : cmpFin m1 e1 m2 e2 = .eq) :
+    (e1 ≤ e2 ∧ m1 = m2 * (2 : Int) ^ (e2 - e1).toNat) ∨ (e2 ≤ e1 ∧ m1 * (2 : Int) ^ (e1 - e2).toNat = m2) := by
+  unfold cmpFin at h
+  rw [cmpInt_eq_iff] at h
+  by_cases hle : e1 ≤ e2
+  · left
+    have h1 : min e1 e2 = e1 := by omega
+    rw [h1] at h
+    have h2 : (e1 - e1).toNat = 0 := by omega
+    rw [h2] at h
+    simp at h
+    exact ⟨hle, h⟩
+  · right
+    have h1 : min e1 e2 = e2 := by omega
+    rw [h1] at h
+    have h2 : (e2 - e2).toNat = 0 := by omega
+    rw [h2] at h
+    simp at h
+    exact ⟨by omega, h⟩
+
+theorem scale_natAbs (a b : Int) (k : Nat) (h : a = b * (2 : Int) ^ k) : a.natAbs = b.natAbs * 2 ^ k := by
+  rw [h, Int.natAbs_mul, Int.natAbs_pow]; rfl
+
+theorem scale_absurd (a b : Int) (k : Nat) (N : Nat) (h : a = b * (2 : Int) ^ k) (ha : a.natAbs < N)
+    (hb : N ≤ b.natAbs) : False := by
+  have h1 := scale_natAbs a b k h
+  have h2 : 1 ≤ 2 ^ k := Nat.one_le_two_pow
+  have h3 : b.natAbs * 1 ≤ b.natAbs * 2 ^ k := Nat.mul_le_mul_left _ h2
+  omega
+
+theorem scale_absurd2 (a b : Int) (k : Nat) (N : Nat) (hk : 1 ≤ k) (h : a = b * (2 : Int) ^ k) (ha : a.natAbs < 2 * N)
+    (hb : N ≤ b.natAbs) : False := by
+  have h1 := scale_natAbs a b k h
+  have h2 : 2 ^ 1 ≤ 2 ^ k := Nat.pow_le_pow_right (by decide) hk
+  have h3 : b.natAbs * 2 ^ 1 ≤ b.natAbs * 2 ^ k := Nat.mul_le_mul_left _ h2
+  omega
+
+/-- Two finite floats given by (sign, biased exponent, fraction) that denote the same real number are both zero
+or have the same three fields. -/
+theorem fin_repr_inj (s1 s2 E1 E2 f1 f2 : Nat) (hs1 : s1 < 2) (hs2 : s2 < 2)
+    (hf1 : f1 < 4503599627370496) (hf2 : f2 < 4503599627370496)
+    (g1 g2 : Nat) (e1 e2 : Int)
+    (hg1 : g1 = if E1 = 0 then f1 else 4503599627370496 + f1)
+    (hg2 : g2 = if E2 = 0 then f2 else 4503599627370496 + f2)
+    (he1 : e1 = if E1 = 0 then -1074 else (E1 : Int) - 1075)
+    (he2 : e2 = if E2 = 0 then -1074 else (E2 : Int) - 1075)
+    (h : cmpFin (if s1 = 1 then -(g1 : Int) else (g1 : Int)) e1 (if s2 = 1 then -(g2 : Int) else (g2 : Int)) e2 = .eq) :
+    (g1 = 0 ∧ g2 = 0) ∨ (s1 = s2 ∧ E1 = E2 ∧ f1 = f2) := by
+  have key : ∀ (sa sb Ea Eb fa fb ga gb : Nat) (ea eb : Int), sa < 2 → sb < 2 →
+      fa < 4503599627370496 → fb < 4503599627370496 →
+      ga = (if Ea = 0 then fa else 4503599627370496 + fa) →
+      gb = (if Eb = 0 then fb else 4503599627370496 + fb) →
+      ea = (if Ea = 0 then -1074 else (Ea : Int) - 1075) →
+      eb = (if Eb = 0 then -1074 else (Eb : Int) - 1075) →
+      ea ≤ eb →
+      (if sa = 1 then -(ga : Int) else (ga : Int)) =
+        (if sb = 1 then -(gb : Int) else (gb : Int)) * (2 : Int) ^ (eb - ea).toNat →
+      (ga = 0 ∧ gb = 0) ∨ (sa = sb ∧ Ea = Eb ∧ fa = fb) := by
+    intro sa sb Ea Eb fa fb ga gb ea eb hsa hsb hfa hfb hga hgb hea heb hle hm
+    have hna : (if sa = 1 then -(ga : Int) else (ga : Int)).natAbs = ga := by split <;> omega
+    have hnb : (if sb = 1 then -(gb : Int) else (gb : Int)).natAbs = gb := by split <;> omega
+    by_cases hk : (eb - ea).toNat = 0
+    · rw [hk] at hm
+      simp at hm
+      have hee : ea = eb := by omega
+      by_cases ha0 : Ea = 0 <;> by_cases hb0 : Eb = 0 <;> simp [ha0, hb0] at hga hgb hea heb <;>
+        by_cases h1 : sa = 1 <;> by_cases h2 : sb = 1 <;> simp [h1, h2] at hm <;> omega
+    · exfalso
+      by_cases hb0 : Eb = 0
+      · simp [hb0] at heb
+        by_cases ha0 : Ea = 0 <;> simp [ha0] at hea <;> omega
+      · simp [hb0] at hgb
+        have hga' : ga < 2 * 4503599627370496 := by
+          by_cases ha0 : Ea = 0 <;> simp [ha0] at hga <;> omega
+        exact scale_absurd2 _ _ _ 4503599627370496 (by omega) hm (by rw [hna]; exact hga') (by rw [hnb]; omega)
+  rcases cmpFin_eq_cases _ _ _ _ h with ⟨hle, hm⟩ | ⟨hle, hm⟩
+  · exact key s1 s2 E1 E2 f1 f2 g1 g2 e1 e2 hs1 hs2 hf1 hf2 hg1 hg2 he1 he2 hle hm
+  · rcases key s2 s1 E2 E1 f2 f1 g2 g1 e2 e1 hs2 hs1 hf2 hf1 hg2 hg1 he2 he1 hle hm.symm with h0 | h0
+    · exact Or.inl ⟨h0.2, h0.1⟩
+    · exact Or.inr ⟨h0.1.symm, h0.2.1.symm, h0.2.2.symm⟩
+
+def fMag (x : Nat) : Nat :=
+  if x / 4503599627370496 % 2048 = 0 then x % 4503599627370496 else 4503599627370496 + x % 4503599627370496
+def fExp (x : Nat) : Int :=
+  if x / 4503599627370496 % 2048 = 0 then -1074 else ((x / 4503599627370496 % 2048 : Nat) : Int) - 1075
+
+theorem decode_finite (x : Nat) (hE : ¬ x / 4503599627370496 % 2048 = 2047) :
+    decode x = .fin (if x / 9223372036854775808 % 2 = 1 then -(fMag x : Int) else (fMag x : Int)) (fExp x) := by
+  unfold decode fMag fExp
+  by_cases h0 : x / 4503599627370496 % 2048 = 0 <;> simp [hE, h0]
+
+theorem fin_zero_feq (s : Nat) (e : Int) :
+    (Fl.fin (if s = 1 then -((0 : Nat) : Int) else ((0 : Nat) : Int)) e).feq (.fin 0 0) = true := by
+  split <;> simp [Fl.feq, Fl.partialCmp, cmpFin, cmpInt]
+
+/-- Floats that are `==` (and not NaN) are both zero or have the same bits. -/
+theorem decode_feq_bits (x y : Nat) (hx : x < 18446744073709551616) (hy : y < 18446744073709551616)
+    (hnx : (decode x).isNan = false) (hny : (decode y).isNan = false)
+    (h : (decode x).feq (decode y) = true) :
+    ((decode x).feq (.fin 0 0) = true ∧ (decode y).feq (.fin 0 0) = true) ∨ x = y := by
+  by_cases hEx : x / 4503599627370496 % 2048 = 2047
+  · by_cases hEy : y / 4503599627370496 % 2048 = 2047
+    · right
+      unfold decode at h hnx hny
+      simp only [hEx, hEy, if_true] at h hnx hny
+      by_cases hfx : x % 4503599627370496 = 0 <;> by_cases hfy : y % 4503599627370496 = 0 <;>
+        simp [hfx, hfy, Fl.isNan] at h hnx hny
+      by_cases hsx : x / 9223372036854775808 % 2 = 1 <;> by_cases hsy : y / 9223372036854775808 % 2 = 1 <;>
+        simp [hsx, hsy, Fl.feq, Fl.partialCmp] at h <;> omega
+    · exfalso
+      rw [decode_finite y hEy] at h
+      unfold decode at h hnx
+      simp only [hEx, if_true] at h hnx
+      by_cases hfx : x % 4503599627370496 = 0 <;> simp [hfx, Fl.isNan] at h hnx
+      by_cases hsx : x / 9223372036854775808 % 2 = 1 <;> simp [hsx, Fl.feq, Fl.partialCmp] at h
+  · by_cases hEy : y / 4503599627370496 % 2048 = 2047
+    · exfalso
+      rw [decode_finite x hEx] at h
+      unfold decode at h hny
+      simp only [hEy, if_true] at h hny
+      by_cases hfy : y % 4503599627370496 = 0 <;> simp [hfy, Fl.isNan] at h hny
+      by_cases hsy : y / 9223372036854775808 % 2 = 1 <;> simp [hsy, Fl.feq, Fl.partialCmp] at h
+    · rw [decode_finite x hEx, decode_finite y hEy] at h ⊢
+      have hc : cmpFin (if x / 9223372036854775808 % 2 = 1 then -(fMag x : Int) else (fMag x : Int)) (fExp x)
+          (if y / 9223372036854775808 % 2 = 1 then -(fMag y : Int) else (fMag y : Int)) (fExp y) = .eq := by
+        simpa [Fl.feq, Fl.partialCmp] using h
+      rcases fin_repr_inj (x / 9223372036854775808 % 2) (y / 9223372036854775808 % 2)
+          (x / 4503599627370496 % 2048) (y / 4503599627370496 % 2048)
+          (x % 4503599627370496) (y % 4503599627370496) (by omega) (by omega) (by omega) (by omega)
+          (fMag x) (fMag y) (fExp x) (fExp y) rfl rfl rfl rfl hc with h0 | h0
+      · left
+        rw [h0.1, h0.2]
+        exact ⟨fin_zero_feq _ _, fin_zero_feq _ _⟩
+      · right
+        omega
+
+/-! ### `==` ⇒ same hash key, and reflexivity, for ALL well-formed values (floats and blobs included) -/
+
+theorem feq_right_not_nan (x y : Fl) (h : x.feq y = true) : y.isNan = false := by
+  cases x <;> cases y <;> simp_all [Fl.feq, Fl.partialCmp, Fl.isNan]
+
+def HashAllV (a : Val) : Prop := a.wf = true → ∀ b, b.wf = true → a.eq b = true → a.hashKey = b.hashKey
+def HashAllE (e : Elems) : Prop :=
+  Elems.wf e = true → ∀ e2, Elems.wf e2 = true → Elems.eq e e2 = true →
+    e.nAttrs = e2.nAttrs ∧ e.nItems = e2.nItems ∧ Elems.attrKeys e = Elems.attrKeys e2 ∧
+      Elems.itemKeys e = Elems.itemKeys e2
+
+theorem hashAll_f64 (x y : Nat) (hx : x < 18446744073709551616) (hy : y < 18446744073709551616)
+    (h : (Val.f64 x).eq (.f64 y) = true) : (Val.f64 x).hashKey = (Val.f64 y).hashKey := by
+  simp only [Val.eq, eqFlat] at h
+  by_cases hn : (decode x).isNan = true
+  · simp only [hn, if_true] at h
+    simp [Val.hashKey, hn, h]
+  · have hn' : (decode x).isNan = false := by simpa using hn
+    simp only [hn', Bool.false_eq_true, if_false] at h
+    have hny := feq_right_not_nan _ _ h
+    rcases decode_feq_bits x y hx hy hn' hny h with h0 | h0
+    · simp [Val.hashKey, hn', hny, h0.1, h0.2]
+    · subst h0; rfl
+
+theorem hashAllV_of (a : Val) (h : ∀ es, a = .record es → HashAllE es) : HashAllV a := by
+  intro ha b hb
+  cases a with
+  | f64 x =>
+    cases b with
+    | f64 y =>
+      simp [Val.wf] at ha hb
+      exact hashAll_f64 x y ha hb
+    | _ => simp [Val.eq, eqFlat]
+  | record es =>
+    cases b with
+    | record e2 =>
+      simp [Val.wf] at ha hb
+      intro he
+      have := h es rfl ha.2 e2 hb.2 (by simpa [Val.eq] using he)
+      simp [Val.hashKey, this.1, this.2.1, this.2.2.1, this.2.2.2]
+    | _ => simp [Val.eq, eqFlat]
+  | _ =>
+    cases b <;>
+      simp [Val.wf, inI32, inI64, inU32, inU64] at ha hb <;>
+      simp [Val.eq, eqFlat, Val.hashKey, intKey, inI128, inI32, inI64, inU32, inU64] <;>
+      grind
+
+theorem wfE_attr {n : Bytes} {v : Val} {tl : Elems} (h : Elems.wf (.attr n v tl) = true) :
+    v.wf = true ∧ Elems.wf tl = true := by simpa [Elems.wf] using h
+theorem wfE_item {v : Val} {tl : Elems} (h : Elems.wf (.item v tl) = true) :
+    v.wf = true ∧ Elems.wf tl = true := by simpa [Elems.wf] using h
+theorem wfE_slot {k v : Val} {tl : Elems} (h : Elems.wf (.slot k v tl) = true) :
+    (k.wf = true ∧ v.wf = true) ∧ Elems.wf tl = true := by simpa [Elems.wf] using h
+
+theorem hashAllV_all (a : Val) : HashAllV a := by
+  induction a using Val.rec (motive_2 := HashAllE) with
+  | record es ih => exact hashAllV_of _ (by intro es' h; cases h; exact ih)
+  | nil =>
+    intro _ e2 _
+    cases e2 <;> simp [Elems.eq]
+  | attr n v tl ihv ihtl =>
+    intro he e2 he2
+    have hg := wfE_attr he
+    cases e2 with
+    | attr n2 v2 t2 =>
+      have hg2 := wfE_attr he2
+      simp only [Elems.eq, Bool.and_eq_true, beq_iff_eq]
+      intro h
+      have h1 := ihv hg.1 v2 hg2.1 h.1.2
+      have h2 := ihtl hg.2 t2 hg2.2 h.2
+      simp [Elems.nAttrs, Elems.nItems, Elems.attrKeys, Elems.itemKeys, h.1.1, h1, h2.1, h2.2.1, h2.2.2.1, h2.2.2.2]
+    | _ => simp [Elems.eq]
+  | item v tl ihv ihtl =>
+    intro he e2 he2
+    have hg := wfE_item he
+    cases e2 with
+    | item v2 t2 =>
+      have hg2 := wfE_item he2
+      simp only [Elems.eq, Bool.and_eq_true]
+      intro h
+      have h1 := ihv hg.1 v2 hg2.1 h.1
+      have h2 := ihtl hg.2 t2 hg2.2 h.2
+      simp [Elems.nAttrs, Elems.nItems, Elems.attrKeys, Elems.itemKeys, h1, h2.1, h2.2.1, h2.2.2.1, h2.2.2.2]
+    | _ => simp [Elems.eq]
+  | slot k v tl ihk ihv ihtl =>
+    intro he e2 he2
+    have hg := wfE_slot he
+    cases e2 with
+    | slot k2 v2 t2 =>
+      have hg2 := wfE_slot he2
+      simp only [Elems.eq, Bool.and_eq_true]
+      intro h
+      have h0 := ihk hg.1.1 k2 hg2.1.1 h.1.1
+      have h1 := ihv hg.1.2 v2 hg2.1.2 h.1.2
+      have h2 := ihtl hg.2 t2 hg2.2 h.2
+      simp [Elems.nAttrs, Elems.nItems, Elems.attrKeys, Elems.itemKeys, h0, h1, h2.1, h2.2.1, h2.2.2.1, h2.2.2.2]
+    | _ => simp [Elems.eq]
+  | _ => exact hashAllV_of _ (by intro es h; cases h)
+
+/-- Every value (no side condition at all) compares `Equal` to itself and is `==` to itself. -/
+def ReflV (a : Val) : Prop := a.cmp a = .eq ∧ a.eq a = true
+def ReflE (e : Elems) : Prop := Elems.cmp e e = .eq ∧ Elems.eq e e = true
+
+theorem cmpBytes_self (b : Bytes) : cmpBytes b b = .eq := (cmpBytes_eq_iff b b).2 rfl
+
+theorem cmpFloatFloat_self (x : Fl) : cmpFloatFloat x x = .eq := by
+  unfold cmpFloatFloat
+  by_cases hn : x.isNan = true
+  · simp [hn]
+  · have hn' : x.isNan = false := by simpa using hn
+    simp [hn', feq_self x hn']
+
+theorem reflV_all (a : Val) : ReflV a := by
+  induction a using Val.rec (motive_2 := ReflE) with
+  | record es ih => exact ⟨by simpa [Val.cmp] using ih.1, by simpa [Val.eq] using ih.2⟩
+  | nil => exact ⟨by simp [Elems.cmp], by simp [Elems.eq]⟩
+  | attr n v tl ihv ihtl =>
+    exact ⟨by simp [Elems.cmp, cmpBytes_self, ihv.1, ihtl.1], by simp [Elems.eq, ihv.2, ihtl.2]⟩
+  | item v tl ihv ihtl =>
+    exact ⟨by simp [Elems.cmp, ihv.1, ihtl.1], by simp [Elems.eq, ihv.2, ihtl.2]⟩
+  | slot k v tl ihk ihv ihtl =>
+    exact ⟨by simp [Elems.cmp, ihk.1, ihv.1, ihtl.1], by simp [Elems.eq, ihk.2, ihv.2, ihtl.2]⟩
+  | f64 x =>
+    refine ⟨by simp [Val.cmp, cmpFlat, cmpFloatFloat_self], ?_⟩
+    simp only [Val.eq, eqFlat]
+    by_cases hn : (decode x).isNan = true
+    · simp [hn]
+    · have hn' : (decode x).isNan = false := by simpa using hn
+      simp [hn', feq_self _ hn']
+  | _ => exact ⟨by simp [Val.cmp, cmpFlat, cmpInt, cmpBool, cmpBytes_self], by simp [Val.eq, eqFlat]⟩
 
 end SwimVerif.ValueOrd
